@@ -669,7 +669,9 @@ def run(ctx):
     results = pmap(_points_worker, jobs, nproc=PAR)
     ctx.extra['crash_enumeration_wall_s'] = round(time.time() - t0, 1)
     points = 0
-    stats = {'pre-startup-fails': 0, 'pre-startup-opens': 0, 'post': 0, 'inside_transaction': 0, 'between_case_and_global': 0}
+    stats = {'pre-startup-fails': 0, 'pre-startup-opens': 0, 'post': 0, 'inside_transaction': 0, 'between_case_and_global': 0,
+             'listed_before_own_derivatives_row': 0}
+    torn_examples = []
     per_run = {}
     for name, out in results:
         ref = _REF[name]
@@ -683,6 +685,10 @@ def run(ctx):
             points += 1
             pr['crash_points'] += 1
             for lab, fr in res['files'].items():
+                if fr['bucket'] == 'post+torn-derivs':
+                    fr['bucket'] = 'post'
+                    stats['listed_before_own_derivatives_row'] += 1
+                    torn_examples.append({'run': name, 'file': lab, 'before_statement': fr['j']})
                 stats[fr['bucket']] += 1
                 if fr['bucket'] == 'post':
                     pr['file_states_post_startup'] += 1
@@ -728,8 +734,8 @@ def run(ctx):
                 points += 1
                 kills['killed_mid_run' if res['killed'] else 'finished_before_kill'] += 1
                 for lab, fr in res['files'].items():
-                    kills['post_startup' if fr['bucket'] == 'post' else 'pre_startup'] += 1
-                    if fr['bucket'] == 'post' and any(o['mark'] >= 1 for o in fr['obs']):
+                    kills['post_startup' if fr['bucket'].startswith('post') else 'pre_startup'] += 1
+                    if fr['bucket'].startswith('post') and any(o['mark'] >= 1 for o in fr['obs']):
                         ctx.note_nontrivial('%s/%s/kill@%d' % (name, lab, res['n']))
                     if fr['clause']:
                         ctx.violation({'run': ref['run'], 'sigkill_after_s': res['delay'], 'statements_begun': res['n'], 'file': lab},
@@ -747,6 +753,13 @@ def run(ctx):
         '%d (file, boundary) pairs before the first completed startup leave a file CaseReader cannot open '
         '(no file yet, tables missing, or the metadata row still NULL); %d open. Not counted as violations: the property '
         'is read as "after the first startup completed".' % (stats['pre-startup-fails'], stats['pre-startup-opens']))
+    if stats['listed_before_own_derivatives_row']:
+        ctx.extra['derivatives_window'] = (
+            '%d (file, boundary) pairs (e.g. %r): the last driver case is listed and complete except that its derivatives are '
+            'None, because Driver.record_derivatives writes the driver_derivatives row in a later transaction of its own '
+            '(after the case with DOEDriver). The row is a separate record of the file (no global_iterations row); the '
+            'records present are still exactly the committed ones. Counted, not judged as a violation.'
+            % (stats['listed_before_own_derivatives_row'], torn_examples[:2]))
     for ref in usable[:2]:
         lab = _labels(ref['run'])[0]
         h = ref['hist'][lab]
@@ -770,8 +783,9 @@ def run(ctx):
         'statement boundaries are those SQLite reports through the trace callback of the recorder connection (incl. implicit '
         'BEGIN and COMMIT); a death inside a single statement is covered by the SIGKILL runs only',
         'serial runs (no MPI): one file holds cases and metadata',
-        'equality of cases: name, source, counter, success, msg, abs/rel error, inputs, outputs, residuals, derivatives '
-        '(timestamps excluded)',
+        'equality of cases: name, source, counter, success, msg, abs/rel error, inputs, outputs, residuals (timestamps '
+        'excluded); derivatives of a driver case are a separate record (driver_derivatives row, own transaction): equal to the '
+        'complete run\'s, or None exactly when that row is not yet durable',
     ]
 
 
